@@ -948,6 +948,12 @@ class QueryBuilder(Selectable, Term):  # type:ignore[misc]
             self._insert_table = new_table
         if self._update_table == current_table:
             self._update_table = new_table
+        if isinstance(current_table, Table) and isinstance(new_table, Table):
+            # FOR UPDATE OF names its targets by reference name
+            self._for_update_of = {
+                new_table.get_table_name() if name == current_table.get_table_name() else name
+                for name in self._for_update_of
+            }
 
         self._with = [
             Cte(
